@@ -397,20 +397,20 @@ func walkExtern(x *X, s *State, c *ssa.CallCommon, a []Val, call ssa.Value) (Val
 	sx := s.clone()
 	sx.assume(sEq(idx, n))
 	for _, cl := range invs {
-		sx.assume(x.evalClause(sx, cl, evalCtx{extra: extraAt(idx), assuming: true}))
+		sx.assumeG(cl.Group, x.evalClause(sx, cl, evalCtx{extra: extraAt(idx), assuming: true}))
 	}
 	// reachability witness: the state after the walk must admit a non-empty listing (guards against an invariant or a
 	// havoc that silently pins the listing to the empty one)
 	{
 		wo := &Oblig{Name: fmt.Sprintf("%s#vacuity.walk%d-exit-nonempty.%d", x.key, ord, len(x.obligs)), Fn: x.key, Kind: "vacuity", Goal: "false",
-			PC: append(append([]string{}, sx.pc...), sApp(">", n, "0")), Vacuity: true}
+			PC: append(visiblePC(sx.pc, ""), sApp(">", n, "0")), Vacuity: true}
 		wo.Decls = x.decls[:len(x.decls):len(x.decls)]
 		x.obligs = append(x.obligs, wo)
 	}
 	// iteration state
 	s.assume(sApp("<", idx, n))
 	for _, cl := range invs {
-		s.assume(x.evalClause(s, cl, evalCtx{extra: extraAt(idx), assuming: true}))
+		s.assumeG(cl.Group, x.evalClause(s, cl, evalCtx{extra: extraAt(idx), assuming: true}))
 	}
 	ks := keyAt(idx)
 	var keyV Val
@@ -626,7 +626,7 @@ func (x *X) paginate(s *State, c *ssa.CallCommon, collV Val, pred, trans Val) Va
 			for _, r := range res {
 				flat = append(flat, x.flat(st, r))
 			}
-			outs = append(outs, outcome{sAnd(st.pc[base:]...), flat})
+			outs = append(outs, outcome{sAnd(visiblePC(st.pc[base:], "")...), flat})
 		}})
 		x.noAbbrev++
 		x.exec(s2)
